@@ -798,6 +798,13 @@ impl UdpSocket {
                 w.stats.udp_oversize += 1;
                 return Err(io::Error::from_raw_os_error(90)); // EMSGSIZE
             }
+            if w.udp[self.sid].addr.is_ipv4() != dst.is_ipv4() {
+                // a socket of one address family cannot send to an address of the other (EAFNOSUPPORT)
+                rec.fate = 6;
+                w.udp_sends.push(rec);
+                w.stats.udp_wrong_family += 1;
+                return Err(io::Error::from_raw_os_error(97));
+            }
             if w.take_fault(FaultKind::UdpSendErr, dst.port(), node) {
                 rec.fate = 3;
                 w.udp_sends.push(rec);
